@@ -206,7 +206,7 @@ def hasOther (l : Spec.Listing) : Bool :=
 
 /-- the bytes of these fields are a frame the protocol parser produces exactly these fields from -/
 def parserFields (fs : List (Bytes × Bytes)) : Bool :=
-  fs.all fun kv => Spec.wfKey kv.1 && kv.1 != str "binary" && validUtf8 kv.2 && !kv.2.contains LF
+  fs.all fun kv => Spec.wfFieldName kv.1 && kv.1 != str "binary" && validUtf8 kv.2 && !kv.2.contains LF
 
 def handle (toks : List String) (impl : String) : Verdict :=
   match toks with
